@@ -12,6 +12,7 @@ ctest --test-dir $WT/_build -j8 --timeout 900 > $LOG.ctest 2>&1; CT=$?
 tail -3 $LOG.ctest
 sh $OUT/demo.sh > $LOG.with 2>&1; W=$?
 git -C $WT checkout -- .
+cmake --build $WT/_build >/dev/null 2>&1
 sh $OUT/demo.sh > $LOG.without 2>&1; WO=$?
 set +x
 echo "CONFIRM $ID-m$k: ctest_rc=$CT demo_with_change_rc=$W demo_without_rc=$WO"
